@@ -82,6 +82,15 @@ def materialize(box, files, single):
             os.link(os.path.join(root, *b.hardlink_of.split("/")), path)
     for d in getattr(files, "emptydirs", ()):
         os.makedirs(os.path.join(root, *d.split("/")), exist_ok=True)
+    for rel, b in files:
+        if b.kind == "z" and len(b) and not getattr(b, "hardlink_of", None) and not getattr(b, "symlink_of", None) \
+                and (len(b) + len(rel)) % 2 == 0:
+            # an all-zero file as a HOLE (no data block allocated): the same bytes as a dense file
+            path = os.path.join(root, *rel.split("/"))
+            if os.path.isfile(path) and not os.path.islink(path) and os.stat(path).st_nlink == 1:
+                os.remove(path)
+                with open(path, "wb") as fd:
+                    fd.truncate(len(b))
     return root, "payload"
 
 
